@@ -109,6 +109,7 @@ func protect(f func() error) (res string, detail string) {
 
 // runTx gives a message baseapp's semantics: executed on a cache branch that is written only on success.
 func (e *Env) runTx(f func(ctx sdk.Context) error) (string, string, sdk.Events) {
+	e.replayCheck(f, true)
 	em := sdk.NewEventManager()
 	cctx, write := e.Ctx.CacheContext()
 	cctx = cctx.WithEventManager(em)
@@ -122,11 +123,28 @@ func (e *Env) runTx(f func(ctx sdk.Context) error) (string, string, sdk.Events) 
 
 // runDirect runs f on the live context (hooks, end-of-block): partial writes stay.
 func (e *Env) runDirect(f func(ctx sdk.Context) error) (string, string, sdk.Events) {
+	e.replayCheck(f, false)
 	em := sdk.NewEventManager()
 	ctx := e.Ctx.WithEventManager(em)
 	res, detail := protect(func() error { return f(ctx) })
 	e.lastDetail = detail
 	return res, detail, em.Events()
+}
+
+// replayCheck (C19): run the operation on sibling branches first and compare their outcomes with each other.
+func (e *Env) replayCheck(f func(ctx sdk.Context) error, _ bool) {
+	e.replayNote = ""
+	k := replays()
+	if k <= 1 {
+		return
+	}
+	first := e.branchRun(f)
+	for i := 2; i < k+1; i++ {
+		if other := e.branchRun(f); other != first {
+			e.replayNote = fmt.Sprintf("mon C19 fail class=nondeterministic sibling executions of one step disagree: %s vs %s", first, other)
+			return
+		}
+	}
 }
 
 // withdrawals extracts, in order, the responses x/distribution gave to reward withdrawals of the module account.
@@ -240,6 +258,13 @@ func (e *Env) Exec(line string) []Step {
 		return []Step{st}
 	}
 	finish := func(op, res string, evs sdk.Events) []Step {
+		if e.replayNote != "" {
+			st.Notes = append(st.Notes, e.replayNote)
+		}
+		if e.reimportNote != "" {
+			st.Notes = append(st.Notes, e.reimportNote)
+			e.reimportNote = ""
+		}
 		if res != "ok" && e.lastDetail != "" {
 			d := e.lastDetail
 			if len(d) > 300 {
@@ -371,6 +396,37 @@ func (e *Env) Exec(line string) []Step {
 	case "endblock":
 		res, _, evs := e.runDirect(func(ctx sdk.Context) error { return alliance.EndBlocker(ctx, k) })
 		return finish("endblock", res, evs)
+	case "reimport":
+		// C18: export the module state, wipe the module store, import the exported genesis
+		res, _, evs := e.runDirect(func(ctx sdk.Context) error {
+			gs := k.ExportGenesis(ctx)
+			again := k.ExportGenesis(ctx)
+			if fmt.Sprint(gs) != fmt.Sprint(again) {
+				return fmt.Errorf("two exports of one state differ")
+			}
+			store := k.StoreService().OpenKVStore(ctx)
+			it, err := store.Iterator(nil, nil)
+			if err != nil {
+				return err
+			}
+			var keys [][]byte
+			for ; it.Valid(); it.Next() {
+				keys = append(keys, append([]byte{}, it.Key()...))
+			}
+			it.Close()
+			for _, key := range keys {
+				if err := store.Delete(key); err != nil {
+					return err
+				}
+			}
+			k.InitGenesis(ctx, gs)
+			second := k.ExportGenesis(ctx)
+			if fmt.Sprint(gs) != fmt.Sprint(second) {
+				e.reimportNote = "mon C18 fail class=second_export_differs export after import differs from the first export"
+			}
+			return nil
+		})
+		return finish("reimport", res, evs)
 	case "advance":
 		return env(func() {
 			e.Ctx = e.Ctx.WithBlockTime(e.Ctx.BlockTime().Add(time.Duration(int64(atoi(f[1]))))).WithBlockHeight(e.Ctx.BlockHeight() + 1)
